@@ -6,6 +6,8 @@ Program AST (JSON-native):
   literal   : [neg, pred, [term, ...]]
   statement : ["fact", atom] | ["pfact", "p", atom] | ["ad", [["p", atom], ...], [literal, ...]]
               | ["rule", atom, [literal, ...]] | ["query", atom, neg] | ["evidence", atom, value, style]
+              | ["rule_or", atom, [common literals], [alternative 1 literals], [alternative 2 literals]]
+                (rendered as  head :- common, (alt1 ; alt2).  and equivalent to the two rules head :- common, alt_i)
 
 All worlds are evaluated at once: the truth value of a ground atom over all W worlds is one Python integer
 used as a W-bit mask; the well-founded model is computed by the alternating fixpoint on those masks."""
@@ -54,6 +56,10 @@ def render_statement(s):
         return heads + "."
     if k == "rule":
         return "%s :- %s." % (render_atom(s[1]), ", ".join(render_lit(l) for l in s[2]))
+    if k == "rule_or":
+        alt = "(%s ; %s)" % (", ".join(render_lit(l) for l in s[3]), ", ".join(render_lit(l) for l in s[4]))
+        parts = [render_lit(l) for l in s[2]] + [alt]
+        return "%s :- %s." % (render_atom(s[1]), ", ".join(parts))
     if k == "query":
         a = render_atom(s[1])
         return "query(%s)." % (("\\+" + a) if s[2] else a)
@@ -139,8 +145,23 @@ def atom_str(a):
     return "%s(%s)" % (pred, ",".join(str(x[1]) for x in args))
 
 
+def expand(prog):
+    """Replace every rule_or statement by the two rules it abbreviates."""
+    if not any(s[0] == "rule_or" for s in prog):
+        return prog
+    out = []
+    for s in prog:
+        if s[0] == "rule_or":
+            out.append(["rule", s[1], list(s[2]) + list(s[3])])
+            out.append(["rule", s[1], list(s[2]) + list(s[4])])
+        else:
+            out.append(s)
+    return out
+
+
 def ground(prog):
     """Relevant grounding: all clause instances whose positive body is possibly true."""
+    prog = expand(prog)
     clauses = []  # (idx, kind, heads [(p or None, atom)], body)
     for idx, s in enumerate(prog):
         k = s[0]
@@ -466,6 +487,7 @@ def _consts_of(prog):
 def full_ground_has_negative_cycle(prog):
     """Does the FULL ground dependency graph (every clause instantiated with every combination of the program's
     constants, no pruning) contain a cycle through negation?"""
+    prog = expand(prog)
     consts = _consts_of(prog)
     edges = {}  # atom -> set((atom, neg))
     for s in prog:
